@@ -169,6 +169,47 @@ for path, seqs in (("jcsample-avx2.asm", [["vpackuswb ymm0, ymm0, ymm1", "vpermq
         if not any(lines[i:i + len(sq)] == sq for i in range(len(lines))):
             die("%s: re-packing sequence changed: %s" % (path, " ; ".join(sq)))
 
+# post-processing controller and spare-row copy (model/ExtentPost.v)
+jp = open(repo + "/src/jdpostct.c").read()
+def cbody(text, name, path):
+    m = re.search(r"\n" + name + r"\(j_decompress_ptr cinfo.*?\n}\n", text, re.S)
+    if not m:
+        die("%s: function %s not found" % (path, name))
+    return norm(re.sub(r"/\*.*?\*/", "", m.group(0), flags=re.S))
+b2 = cbody(jp, "post_process_2pass", "jdpostct.c")
+for n in ("num_rows=post->strip_height-post->next_row;", "max_rows=out_rows_avail-*out_row_ctr;if(num_rows>max_rows)num_rows=max_rows;",
+          "output_buf+*out_row_ctr,(int)num_rows);*out_row_ctr+=num_rows;", "post->next_row+=num_rows;if(post->next_row>=post->strip_height){post->starting_row+=post->strip_height;post->next_row=0;}"):
+    if n not in b2:
+        die("jdpostct.c: post_process_2pass: statement the model transcribes is gone: " + n)
+forms = {"max_rows=cinfo->output_height-post->starting_row;": 0, "max_rows=cinfo->output_height-post->starting_row-post->next_row;": 1,
+         "max_rows=cinfo->image_height-post->starting_row;": 2}
+hit = [v for k_, v in forms.items() if k_ in b2]
+if len(hit) != 1:
+    die("jdpostct.c: post_process_2pass: bottom-of-image clamp not recognised")
+pp2_clamp = hit[0]
+b1 = cbody(jp, "post_process_1pass", "jdpostct.c")
+for n in ("max_rows=out_rows_avail-*out_row_ctr;if(max_rows>post->strip_height)max_rows=post->strip_height;", "post->buffer,&num_rows,max_rows);", "*out_row_ctr+=num_rows;"):
+    if n not in b1:
+        die("jdpostct.c: post_process_1pass changed: " + n)
+if "(_JSAMPARRAY)NULL,(int)num_rows);" not in cbody(jp, "post_process_prepass", "jdpostct.c"):
+    die("jdpostct.c: post_process_prepass no longer passes NULL as the output array")
+jm = open(repo + "/src/jdmerge.c").read()
+bm = cbody(jm, "merged_2v_upsample", "jdmerge.c")
+if "_jcopy_sample_rows(&upsample->spare_row,0,output_buf+*out_row_ctr,0,1," not in bm:
+    die("jdmerge.c: merged_2v_upsample: spare-row copy changed")
+mrg_copy565 = "if(cinfo->out_color_space==JCS_RGB565)size=cinfo->output_width*2;" in bm and "1,size);" in bm
+if not mrg_copy565 and "1,upsample->out_row_width);" not in bm:
+    die("jdmerge.c: merged_2v_upsample: length of the spare-row copy not recognised")
+bi = norm(re.sub(r"/\*.*?\*/", "", jm[jm.index("_jinit_merged_upsampler(j_decompress_ptr cinfo)"):], flags=re.S))
+def site565(b, where):
+    plain = "upsample->out_row_width=cinfo->output_width*cinfo->out_color_components;" in b
+    special = "if(cinfo->out_color_space==JCS_RGB565)upsample->out_row_width=cinfo->output_width*2;" in b
+    if not plain:
+        die("%s: out_row_width is no longer output_width * out_color_components" % where)
+    return special
+mrg_init565 = site565(bi, "jdmerge.c _jinit_merged_upsampler")
+mrg_crop565 = site565(norm(re.sub(r"/\*.*?\*/", "", open(repo + "/src/jdapistd.c").read(), flags=re.S)), "jdapistd.c jpeg_crop_scanline")
+
 h = open(repo + "/src/turbojpeg.h").read()
 
 
@@ -201,6 +242,9 @@ print("Definition dec_chk_bottom : bool := %s." % ("true" if chk_bottom else "fa
 print("(* size_t on the LP64 target the harness is built for *)")
 print("Definition rowptr_mul_bits : Z := 64.")
 print("Definition rgb565_reset_per_row : bool := %s." % ("true" if per_row[0] else "false"))
+print("Definition pp2_clamp : Z := %d." % pp2_clamp)
+for nm, v in (("mrg_copy565", mrg_copy565), ("mrg_init565", mrg_init565), ("mrg_crop565", mrg_crop565)):
+    print("Definition %s : bool := %s." % (nm, "true" if v else "false"))
 print("Definition tmp_rows_cover_pw : bool := %s." % ("true" if wide else "false"))
 print("Definition tj_mcu_width : list Z := %s." % zl(mw))
 print("Definition tj_mcu_height : list Z := %s." % zl(mh))
